@@ -231,8 +231,20 @@ func (sc *Scen) stepNamed(n string) {
 		sc.stepRestart()
 	case "duplicate":
 		sc.stepDuplicate()
+	default:
+		// additive: step kinds registered by per-property files (registerStepKind)
+		for _, h := range extraStepKinds {
+			if h(sc, n) {
+				return
+			}
+		}
 	}
 }
+
+// registerStepKind lets per-property files add directed step kinds (init-time); a handler returns true when it recognised the name
+var extraStepKinds []func(sc *Scen, name string) bool
+
+func registerStepKind(h func(sc *Scen, name string) bool) { extraStepKinds = append(extraStepKinds, h) }
 
 func (sc *Scen) claimAmount() (amt uint64) {
 	defer func() {
